@@ -9,7 +9,7 @@ from chython.containers.bonds import Bond
 from chython.exceptions import InvalidAromaticRing, ValenceError
 
 ID = 'C13'
-RULE = ('histories over an alphabet of 17 mutators (add_atom, add_bond 1/2, delete_atom, delete_bond, charge / radical '
+RULE = ('histories over an alphabet of 18 mutators (add_atom, add_bond 1/2/coordinate, delete_atom, delete_bond, charge / radical '
         'change inside `with mol:`, mixed transaction (structural edits + partial remap + label edits in one block, 8 shapes), '
         'raising transaction, remap, copy+edit, substructure+edit, |, |=, kekule/thiele, '
         'clean_stereo, coordinate edit on a copy; in the random histories also standardize / neutralize / clean_isotopes / '
@@ -375,7 +375,7 @@ def snapshot(mol):
 
 
 # ---- operations ----------------------------------------------------------------------------------------------------------------
-OPS = ['add_atom', 'add_bond1', 'add_bond2', 'delete_atom', 'delete_bond', 'txn_charge', 'txn_radical', 'txn_raise',
+OPS = ['add_atom', 'add_bond1', 'add_bond2', 'add_bond8', 'delete_atom', 'delete_bond', 'txn_charge', 'txn_radical', 'txn_raise',
        'remap', 'copy_edit', 'sub_edit', 'union', 'iunion', 'kekule_thiele', 'clean_stereo', 'txn_multi', 'txn_seq']
 
 
@@ -429,8 +429,26 @@ def run_prim(mol, st):
         raise KeyError(name)
 
 
-# in-place normalisers and isotope edits take part in the random histories only (the exhaustive alphabet stays at 17)
+# in-place normalisers and isotope edits take part in the random histories only (the exhaustive alphabet stays at 18)
 OPS_RANDOM = OPS + ['standardize', 'neutralize', 'clean_isotopes', 'fix_resonance', 'explicify_hydrogens', 'implicify_hydrogens', 'remove_metals', 'txn_isotope', 'txn_isotope', 'txn_charge', 'txn_radical']
+
+
+def M_components(mol):
+    """connected components from the bonds as they are (own traversal, no cached value of the library is read)"""
+    seen, out = set(), []
+    for n in mol._atoms:
+        if n in seen:
+            continue
+        comp, stack = {n}, [n]
+        while stack:
+            x = stack.pop()
+            for y in mol._bonds[x]:
+                if y not in comp:
+                    comp.add(y)
+                    stack.append(y)
+        seen |= comp
+        out.append(comp)
+    return out
 
 
 def kekule_state(mol):
@@ -448,10 +466,16 @@ def apply(ctx, mol, op, k, hist):
         n = mol.add_atom(('C', 'N', 'O', 'Cl')[k % 4])
         hist.append(('add_atom', ('C', 'N', 'O', 'Cl')[k % 4], n))
         return mol, True
-    if op in ('add_bond1', 'add_bond2'):
+    if op in ('add_bond1', 'add_bond2', 'add_bond8'):
         if a == b or b in mol._bonds[a]:
             return mol, False
-        o = 1 if op == 'add_bond1' else 2
+        o = {'add_bond1': 1, 'add_bond2': 2, 'add_bond8': 8}[op]
+        if o == 8:
+            # coordinate bonds join separate species (ion pair, solvate, complex); one inside a small organic skeleton is not a structure
+            comp = next(c for c in M_components(mol) if a in c)
+            if b in comp:
+                return mol, False
+            ctx.count('edits.coordinate-bond-added')
         mol.add_bond(a, b, o)
         hist.append(('add_bond', a, b, o))
         return mol, True
